@@ -198,6 +198,19 @@ func FixedFed() FedSpec {
 	return buildFed([]string{"A", "B", "C"}, owners)
 }
 
+// FixedFed2 co-locates allPhotos and Photo.likedBy (two nested lists in one step) and joins User fields from
+// other services beneath them; allPhotos contains a null element.
+func FixedFed2() FedSpec {
+	owners := map[string][]string{
+		"Query.allUsers": {"A"}, "Query.user": {"A"}, "Query.me": {"A"}, "Query.pets": {"A"}, "Query.allPhotos": {"B"}, "Query.topPhoto": {"B"},
+		"Mutation.bump": {"A"}, "Mutation.touch": {"B"},
+		"User.firstName": {"A"}, "User.friends": {"A"}, "User.pet": {"A"}, "User.lastName": {"C"}, "User.photos": {"A"}, "User.favorite": {"B"}, "User.nick": {"C"},
+		"Photo.url": {"B"}, "Photo.owner": {"B"}, "Photo.likes": {"C"}, "Photo.likedBy": {"B"},
+		"Cat.lives": {"A"}, "Cat.toys": {"C"}, "Dog.barks": {"B"}, "Dog.owner": {"B"},
+	}
+	return buildFed([]string{"A", "B", "C"}, owners)
+}
+
 // GenStore builds a data graph with nulls, empty lists, shared and cyclic references.
 func GenStore(r *rand.Rand, oddIDs bool) Store {
 	u := func(id string) Ref { return Ref{"User", id} }
@@ -398,6 +411,13 @@ func (g *QGen) sel(typeName string, depth int, lvl *level) string {
 			}
 		default:
 			cond := typeName
+			if poss := g.Schema.GetPossibleTypes(def); len(poss) > 0 && g.R.Intn(2) == 0 {
+				// a named fragment on a narrower type than the one it is spread under
+				cond = poss[g.R.Intn(len(poss))].Name
+				if cond != typeName {
+					g.feat("named-narrowing")
+				}
+			}
 			name := fmt.Sprintf("F%d", g.nfrag)
 			g.nfrag++
 			inner := g.sel(cond, depth-1, lvl)
